@@ -1,0 +1,17 @@
+//go:build verif
+
+package unsafex
+
+// Contracts of the zero-copy conversions (file unsafex_go121.go, the one built by the
+// installed toolchain). They follow from the semantics of unsafe.String / unsafe.SliceData /
+// unsafe.Slice / unsafe.StringData, which are built into the verifier (trusted).
+
+//@ func BinaryToString
+//@   props C20
+//@   ensures len(ret) == len(b) && eqbytes(ret, 0, b, 0, len(b))
+//@   ensures region(ret) == region(b) && offset(ret) == offset(b)
+
+//@ func StringToBinary
+//@   props C20
+//@   ensures len(ret) == len(s) && cap(ret) == len(s) && eqbytes(ret, 0, s, 0, len(s))
+//@   ensures region(ret) == region(s) && offset(ret) == offset(s)
